@@ -90,6 +90,8 @@ def gen_plan(rng, index, tier):
     else:
         hc = {"confmaps": {"part_names": parts, "sigma": 1.5, "output_stride": s1, "loss_weight": 1.0},
               "pafs": {"edges": [[f"n{i}", f"n{i + 1}"] if i + 1 < n_parts else [f"n0", f"n0"] for i in range(n_edges)], "sigma": 4.0, "output_stride": s2, "loss_weight": 1.0}}
+        if rng.random() < 0.4:
+            hc = {"pafs": hc["pafs"], "confmaps": hc["confmaps"]}  # a head config is a mapping: the order its keys are written in carries no meaning
     n_calls = rng.randint(3, 10 if tier == "thorough" else 6)
     calls = []
     big = fam != "unet"
@@ -190,7 +192,7 @@ def execute(plan, choices=None):
     violations = []
     trace = []
     probes = {"forward_calls": 0, "frames_compared_with_pristine_copy": 0, "input_size_changed_between_calls": 0, "transposed_size_after_call": 0, "rng_jumps": 0, "raw_intensity_inputs": 0, "dark_frame_among_bright": 0,
-              "batch_permuted": 0, "head_stride_differs_from_backbone_min": 0, "bottomup_two_strides": 0, "stem_blocks_used": 0, "family_" + plan["family"]: 1}
+              "batch_permuted": 0, "head_stride_differs_from_backbone_min": 0, "bottomup_two_strides": 0, "pafs_listed_before_confmaps": 0, "stem_blocks_used": 0, "family_" + plan["family"]: 1}
     fam, head = plan["family"], plan["head"]
 
     def V(kind, where, detail):
@@ -233,6 +235,8 @@ def execute(plan, choices=None):
     strides = sorted({v["output_stride"] for v in plan["head_cfg"].values()})
     if len(strides) > 1:
         probes["bottomup_two_strides"] = 1
+        if list(plan["head_cfg"])[0] == "pafs":
+            probes["pafs_listed_before_confmaps"] = 1
     if bb.get("stem_stride"):
         probes["stem_blocks_used"] = 1
     last_hw = None
